@@ -94,13 +94,21 @@ def render_module(uni, slot, module, style=None):
             lines.append("@pytest.fixture" + ("(%s)" % ", ".join(args) if args else ""))
             deps = _seq(it["deps"])
             head = "def %s(" % it["name"]
-            col = len(head)
-            parts = []
-            for j, d in enumerate(deps):
-                r.use_pos[(idx, "p", j + 1)] = (ln + 1, col, col + len(d))
-                parts.append(d)
-                col += len(d) + 2
-            lines.append(head + ", ".join(parts) + "):")
+            if style == "wrap" and deps:
+                # wrapped signature: one parameter per line below the def line
+                lines.append(head)
+                for j, d in enumerate(deps):
+                    r.use_pos[(idx, "p", j + 1)] = (len(lines) + 1, 4, 4 + len(d))
+                    lines.append("    %s," % d)
+                lines.append("):")
+            else:
+                col = len(head)
+                parts = []
+                for j, d in enumerate(deps):
+                    r.use_pos[(idx, "p", j + 1)] = (ln + 1, col, col + len(d))
+                    parts.append(d)
+                    col += len(d) + 2
+                lines.append(head + ", ".join(parts) + "):")
             lines.append("    return 1")
             r.item_line[idx] = ln + 1
             r.def_name_pos[idx] = (ln + 1, 4, 4 + len(it["name"]))
@@ -146,11 +154,18 @@ def render_module(uni, slot, module, style=None):
                 parts.append("self")
                 col += 6
             dl = len(lines) + 1
-            for j, d in enumerate(deps):
-                r.use_pos[(idx, "p", j + 1)] = (dl, col, col + len(d))
-                parts.append(d)
-                col += len(d) + 2
-            lines.append(head + ", ".join(parts) + "):")
+            if style == "wrap" and deps:
+                lines.append(head + ("self," if cmarks else ""))
+                for j, d in enumerate(deps):
+                    r.use_pos[(idx, "p", j + 1)] = (len(lines) + 1, len(indent) + 4, len(indent) + 4 + len(d))
+                    lines.append(indent + "    %s," % d)
+                lines.append(indent + "):")
+            else:
+                for j, d in enumerate(deps):
+                    r.use_pos[(idx, "p", j + 1)] = (dl, col, col + len(d))
+                    parts.append(d)
+                    col += len(d) + 2
+                lines.append(head + ", ".join(parts) + "):")
             lines.append(indent + "    pass")
             r.item_line[idx] = dl
         elif k == "star":
@@ -349,10 +364,10 @@ def pyextract(text, uni=None, slot=None):
 
 
 @functools.lru_cache(maxsize=200000)
-def _render_checked_cached(uni_id, slot, module_json):
+def _render_checked_cached(uni_id, slot, module_json, style=None):
     uni = _UNIS[uni_id]
     module = json.loads(module_json)
-    r = render_module(uni, slot, module)
+    r = render_module(uni, slot, module, style)
     if module.get("valid", True):
         try:
             items, pos = pyextract(r.text)
@@ -392,6 +407,6 @@ def _render_checked_cached(uni_id, slot, module_json):
 _UNIS = {}
 
 
-def render_checked(uni, slot, module):
+def render_checked(uni, slot, module, style=None):
     _UNIS[id(uni)] = uni
-    return _render_checked_cached(id(uni), slot, json.dumps(module, sort_keys=True))
+    return _render_checked_cached(id(uni), slot, json.dumps(module, sort_keys=True), style)
